@@ -21,11 +21,11 @@ import (
 
 func init() {
 	Register(&Property{
-		ID:   "C11",
-		Run:  runC11,
-		Rule: "runs = a real client with 1-5 servers, each honest / down / flaky (refuse, reset, short read, corrupted reply) / rogue (arbitrary byte strings of 0-65535 bytes, every length class around the fixed header sizes, correctly signed replies with inconsistent location lengths, hundreds of entries, GCA-signed ban entries, stale timestamps, foreign device keys, foreign GCA signatures, finite stalls), all-banned and all-failed configurations, client restarts, 100-400 client ticks so that rounds overlap; oracles at every quiescent point: client mutex free, ban knowledge monotone within a GCA epoch (state and gcaServers.dat, also across restart), no dial to a server the client knows to be banned; after the adversarial phase new readings still produce datagrams and a new dial happens within 64 ticks; non-trivial = at least one rogue or flaky reply was processed and one round ended with every candidate failed; distinct = distinct decision signatures",
-		Real: []string{"client send loop, sync rounds (server selection, retry loop, merge, persistence, resend loop), reply parser, start-up server selection", "honest servers: real sync handler"},
-		Stub: []string{"rogue servers (harness, holding the server's real key)", "TCP/UDP (simulated fabric)"},
+		ID:             "C11",
+		Run:            runC11,
+		Rule:           "runs = a real client with 1-5 servers, each honest / down / flaky (refuse, reset, short read, corrupted reply) / rogue (arbitrary byte strings of 0-65535 bytes, every length class around the fixed header sizes, correctly signed replies with inconsistent location lengths, hundreds of entries, GCA-signed ban entries, stale timestamps, foreign device keys, foreign GCA signatures, finite stalls), all-banned and all-failed configurations, client restarts, 100-400 client ticks so that rounds overlap; oracles at every quiescent point: client mutex free, ban knowledge monotone within a GCA epoch (state and gcaServers.dat, also across restart), no dial to a server the client knows to be banned; after the adversarial phase new readings still produce datagrams and a new dial happens within 64 ticks; non-trivial = at least one rogue or flaky reply was processed and one round ended with every candidate failed; distinct = distinct decision signatures",
+		Real:           []string{"client send loop, sync rounds (server selection, retry loop, merge, persistence, resend loop), reply parser, start-up server selection", "honest servers: real sync handler"},
+		Stub:           []string{"rogue servers (harness, holding the server's real key)", "TCP/UDP (simulated fabric)"},
 		Assumptions:    []string{"a stalled connection ends after a finite simulated time (the client has no read deadline of its own; an endless stall only blocks that one sync goroutine and, by design of the thread group, Close())"},
 		RequiredProbes: []string{"c11.rogue.short", "c11.rogue.signed-short", "c11.rogue.bans", "c11.rogue.many-entries", "c11.rogue.bad-loclen", "c11.all-failed-round", "c11.all-banned", "c11.restart", "c11.liveness-checked", "c11.flaky"},
 	})
